@@ -4,6 +4,7 @@ From Coq Require Import List Arith Lia Bool Ring Field String ZArith QArith Qabs
 From PyOMA.Base Require Import Carrier FMat Cplx Argmin Show.
 From PyOMA.Model Require Import M_fdd.
 From PyOMA.Proofs Require Import P_fdd P_spectral_compose.
+From PyOMA.Proofs Require Import P_fdd_full.
 Import ListNotations.
 
 (* ---------------------------------------------------------------------------------------------------------------
@@ -185,11 +186,13 @@ Theorem C06_composed_R_partial :
 Proof. exact composed_R. Qed.
 
 (* ---------------------------------------------------------------------------------------------------------------
-   F. what is NOT proved as one statement: the same composition THROUGH the executable model - fdd_mpe1 run on the
-   three-index tables that the SD_svalsvec model builds from a contract-meeting SVD sequence (with rational square
-   roots).  A-D prove every link of it (pick, either convention, shape, MAC, unitary / reconstruction / left action),
-   E proves the composition declaratively over R; the table-indexing glue between them is not proved.
-   The definition below asserts nothing. *)
+   F. the same composition THROUGH the executable model - fdd_mpe1 run on the three-index tables that the SD_svalsvec
+   model builds (tab3 of sval_of / svec_of) from a contract-meeting SVD sequence (with rational square roots): whenever
+   the run returns (idx, Fn, Phi), idx is the FIRST line of the band between the nearest lines at which sigma1/sigma2 is
+   largest, Fn is the grid value there, Phi has a component exactly 1 and MAC(Phi, conj U[:,0]) = 1 (numerator =
+   denominator).  The statement is kept as a definition (its name is referred to elsewhere) and proved just below as
+   C06_full (Proofs/P_fdd_full.v: accessor lemmas for tab3-built tables + the Qc / Q glue); C06_full_total adds that the
+   run DOES return on every non-empty band. *)
 Definition C06_full_statement : Prop :=
   forall (nr nc nf:nat) (Sy U Vh:nat -> fmat CQ) (sigma sq:nat -> nat -> Qc) (freq:list Q) (f DF:Q) (idx:nat) (fn:Q) (phi:list CQ),
   (2 <= nc <= nr)%nat -> List.length freq = nf -> increasing freq ->
@@ -207,6 +210,37 @@ Definition C06_full_statement : Prop :=
     mac_num QcOps nr (vecC QcOps phi) (fun i => cconj QcOps (U idx i 0%nat))
     = mac_den QcOps nr (vecC QcOps phi) (fun i => cconj QcOps (U idx i 0%nat)) /\
     (exists p, nth_error phi p = Some (c1 QcOps)).
+
+Theorem C06_full : C06_full_statement.
+Proof. exact fdd_full. Qed.
+
+(* ... and the run DOES return (no exception, no inf/nan arithmetic) on every non-empty band between the nearest lines:
+   the hypothesis "fdd_mpe1 ... = Ok ..." of C06_full is met by every contract-meeting sequence *)
+Theorem C06_full_total :
+  forall (nr nc nf:nat) (Sy U Vh:nat -> fmat CQ) (sigma sq:nat -> nat -> Qc) (freq:list Q) (f DF:Q) (lo hi:nat),
+  (2 <= nc <= nr)%nat -> List.length freq = nf ->
+  (forall k, (k < nf)%nat ->
+     feq nr nc (Sy k) (fmul (COps QcOps) nc (U k) (fmul (COps QcOps) nc (cdiag QcOps (sigma k)) (Vh k))) /\
+     feq nr nr (fmul (COps QcOps) nr (fherm QcOps (U k)) (U k)) (fid (COps QcOps)) /\
+     feq nr nr (fmul (COps QcOps) nr (U k) (fherm QcOps (U k))) (fid (COps QcOps)) /\
+     (forall i, (i < nc)%nat -> (0 < sq k i)%Qc /\ (sq k i * sq k i = sigma k i)%Qc) /\
+     (forall i, (S i < nc)%nat -> (sq k (S i) <= sq k i)%Qc)) ->
+  nearest freq (f - DF) = Some lo -> nearest freq (f + DF) = Some hi -> (lo < hi)%nat ->
+  exists idx fn phi,
+    fdd_mpe1 freq (tab3 nc nc nf (fun i j k => this (sval_of QcOps (sq k) i j)))
+                  (tab3 nr nr nf (fun i j k => svec_of QcOps (U k) i j)) f DF = Ok (idx, fn, phi) /\
+    (lo <= idx < hi)%nat /\ List.length phi = nr.
+Proof. exact fdd_full_total. Qed.
+
+(* the table-indexing glue: T[i,j,:] of a table built by tab3 exists for in-range i, j, has c lines, and T[i,j,k] IS the
+   function value for k < c (an IndexError past the end); Svec[0,:,k] is read only at an in-range line and is (f 0 j k)_j *)
+Theorem C06_tab3_entry : forall (A:Type) a b c (f:nat -> nat -> nat -> A) i j k, (i < a)%nat -> (j < b)%nat ->
+  exists ln, line (tab3 a b c f) i j = Some ln /\ List.length ln = c /\
+    nth_error ln k = if (k <? c)%nat then Some (f i j k) else None.
+Proof. exact (@tab3_entry). Qed.
+Theorem C06_tab3_row0 : forall (A:Type) a b c (f:nat -> nat -> nat -> A) k v, (0 < a)%nat -> row0 (tab3 a b c f) k = Ok v ->
+  List.length v = b /\ forall j, (j < b)%nat -> (k < c)%nat /\ nth_error v j = Some (f 0%nat j k).
+Proof. exact (@row0_tab3). Qed.
 
 (* ---------------------------------------------------------------------------------------------------------------
    G. composition with C13: the narrow-band clause stated from the DATA side.  The spectral matrix is no longer a
@@ -280,6 +314,10 @@ Print Assumptions C06_composed_R_partial.
 Print Assumptions C06_welch_rank_one.
 Print Assumptions C06_narrowband_from_welch.
 Print Assumptions C06_narrowband_from_welch_mac.
+Print Assumptions C06_full.
+Print Assumptions C06_full_total.
+Print Assumptions C06_tab3_entry.
+Print Assumptions C06_tab3_row0.
 
 (* non-vacuity 1: a 7-line grid, band [1,5) around 3/4 with DF = 1/2; the ratios on the band are 2,2,2,3 -> line 4; around 1/2 with DF = 1/2 the band [0,4) is all ties -> line 0; around
    1/2 with DF = 1/4 the band is [1,3) with the tie 2,2 -> the FIRST line 1; the shape is divided by its largest component *)
@@ -338,4 +376,22 @@ Example C06_example_narrowband_from_welch :
   showCRow (tab 2 (svec_of QcOps (fmatC ex_U) 0%nat)) = "3/5,0/1 0/1,-4/5"%string /\
   sc_ceqb (cmul QcOps (svec_of QcOps (fmatC ex_U) 0%nat 0%nat) (ex_nb_A 1%nat))
           (cmul QcOps (svec_of QcOps (fmatC ex_U) 0%nat 1%nat) (ex_nb_A 0%nat)) = true.
+Proof. vm_compute. repeat split; reflexivity. Qed.
+
+(* non-vacuity 4 (C06_full / C06_full_total): five lines, at every line the unitary U of non-vacuity 2 (U^H U - I = 0 shown there;
+   Sy := U diag(sigma) U^H), stored values sq = (2,1),(3,1),(5,1),(4,2),(1,1) (positive, non-increasing), sigma = sq^2.  fdd_mpe1 run on
+   the tab3-built tables around 1/2 with DF = 1/4: band [1,3), sigma1/sigma2 = 9, 25 -> line 2, Fn = 1/2, and
+   Phi = conj(U[:,0]) / (-4i/5) = (3i/4, 1);  MAC(Phi, conj U[:,0]): numerator = denominator = 25/16 *)
+Definition exf_freq : list Q := [0#1; 1#4; 1#2; 3#4; 1#1]%Q.
+Definition exf_sq (k i:nat) : Qc := nth i (nth k [[q 2 1; q 1 1]; [q 3 1; q 1 1]; [q 5 1; q 1 1]; [q 4 1; q 2 1]; [q 1 1; q 1 1]] []) 0%Qc.
+Definition exf_Sval := tab3 2 2 5 (fun i j k => this (sval_of QcOps (exf_sq k) i j)).
+Definition exf_Svec := tab3 2 2 5 (fun i j k => svec_of QcOps (fmatC ex_U) i j).
+Example C06_example_full :
+  forallb (fun k => forallb (fun i => negb (Qle_bool (this (exf_sq k i)) 0)) (seq 0 2)
+                    && Qle_bool (this (exf_sq k 1%nat)) (this (exf_sq k 0%nat))) (seq 0 5) = true /\
+  fdd_idx exf_freq exf_Sval (1#2) (1#4) = Ok (1, 3, 2)%nat /\
+  show_mpe (fdd_mpe exf_freq exf_Sval exf_Svec [1#2]%Q (1#4)) = "2@1/2@0/1,3/4 1/1,0/1"%string /\
+  showL showQc " " (map (fun k => (exf_sq k 0%nat * exf_sq k 0%nat) / (exf_sq k 1%nat * exf_sq k 1%nat))%Qc (seq 1 2)) = "9/1 25/1"%string /\
+  (let phi := [(q 0 1, q 3 4); (q 1 1, q 0 1)] in let b := fun i => cconj QcOps (fmatC ex_U i 0%nat) in
+   showQc (mac_num QcOps 2 (vecC QcOps phi) b) = "25/16"%string /\ showQc (mac_den QcOps 2 (vecC QcOps phi) b) = "25/16"%string).
 Proof. vm_compute. repeat split; reflexivity. Qed.
